@@ -13,12 +13,15 @@ import json
 import os
 
 import dns.btreezone
+import dns.flags
+import dns.message
 import dns.name
 import dns.rdata
 import dns.rdataclass
 import dns.rdataset
 import dns.rdatatype
 import dns.rrset
+import dns.xfr
 import dns.zone
 
 from harness.core import Ctx, VERIF, enc_labels, dec_labels
@@ -236,7 +239,43 @@ def load_text(case):
     return "\n".join(lines) + "\n"
 
 
+def load_zone_xfr(case):
+    """third load route: the same records arrive as an AXFR (dns.xfr.Inbound on the B-tree zone, replacement
+    writer), SOA first and last, the others in item order, names in the zone's own relativity"""
+    origin_labels = [bytes.fromhex(x) for x in case["origin"]]
+    origin = dns.name.Name(origin_labels)
+    rel = bool(case["rel"])
+    cls = dns.rdataclass.CH if case.get("cls") == "CH" else dns.rdataclass.IN
+    cfg = {"rel": rel, "origin": tuple(origin_labels)}
+    zone = dns.btreezone.Zone(origin, rdclass=cls, relativize=rel)
+    msg = dns.message.Message(id=1)
+    msg.flags |= dns.flags.QR
+    apex_name = dns.name.empty if rel else origin
+    soa = dns.rrset.from_rdata_list(apex_name, 300, list(rdataset_for(6, 0, cls=cls)))
+    body, seen = [], set()
+    for item in case["items"]:
+        f = item.split(":")
+        if f[0] != "p" or f[2] == "6":
+            continue
+        ty, cov = int(f[2]), int(f[3])
+        labels = dec_labels(f[1])
+        if rel and labels and labels[-1] == b"":
+            labels = labels[: len(labels) - len(origin_labels)]
+        elif not rel and not (labels and labels[-1] == b""):
+            labels = list(labels) + origin_labels
+        alt = (tuple(l.lower() for l in labels), ty, cov) in seen
+        seen.add((tuple(l.lower() for l in labels), ty, cov))
+        body.append(dns.rrset.from_rdata_list(dns.name.Name(labels), 300, list(rdataset_for(ty, cov, alt=alt, cls=cls))))
+    msg.answer = [soa] + body + [soa]
+    with dns.xfr.Inbound(zone, dns.rdatatype.AXFR) as inbound:
+        if not inbound.process_message(msg):
+            raise RuntimeError("transfer not complete")
+    return zone
+
+
 def load_zone(case):
+    if case["load"].get("xfr"):
+        return load_zone_xfr(case)
     origin = dns.name.Name([bytes.fromhex(x) for x in case["origin"]])
     return dns.zone.from_text(load_text(case), origin=None if case["load"]["origin_from_text"] else origin,
                               rdclass=dns.rdataclass.CH if case.get("cls") == "CH" else dns.rdataclass.IN,
@@ -442,7 +481,7 @@ def evaluate(case):
                 else:
                     how = "origin-from-$ORIGIN" if load["origin_from_text"] else "explicit-origin"
                     fails.append((f"C20/load/{'+'.join(clauses)}/{how}/{'relativized' if rel else 'absolute'}",
-                                  f"zone loaded from text differs from the definition ({', '.join(clauses)}): {show_snap(v)}; text {load_text(case)!r}"))
+                                  f"zone loaded from {'a transfer' if load.get('xfr') else 'text'} differs from the definition ({', '.join(clauses)}): {show_snap(v)}; text {load_text(case)!r}"))
             else:
                 fails.append((f"C20/flags/{'+'.join(clauses)}/at-commit", f"committed version differs from the definition: {show_snap(v)}"))
         # what the definition says, for the comparison with the Lean specification
@@ -940,7 +979,7 @@ def gen_history(rng, avoid=False, queries=True, malformed=False):
     items = []
     sh = Shadow()
     apex_spelling = [] if rel else list(origin)
-    ntx = rng.choice([1, 1, 2, 2, 3, 3, 4, 5, 7])
+    ntx = rng.choice([1, 1, 2, 2, 3, 3, 4, 5, 7]) if not rng.chance(1, 40) else 30
     for t in range(ntx):
         repl = t == 0 or rng.chance(1, 12)
         commit = not rng.chance(1, 8)
@@ -992,7 +1031,19 @@ def gen_history(rng, avoid=False, queries=True, malformed=False):
                 continue
             name = spell(rng, rn, cfg)
             if malformed and rng.chance(1, 5):
+                olen = sum(len(l) + 1 for l in origin)
+                room = 255 - olen                     # wire octets left for the relative part
+                def fill(n):                          # relative labels whose wire length is exactly n
+                    out_ = []
+                    while n > 64:
+                        out_.append(b"l" * 63); n -= 64
+                    if n == 1:                        # cannot make a 1-octet label: shorten the previous one
+                        out_[-1] = out_[-1][:-1]; n = 2
+                    return out_ + [b"m" * (n - 1)] if n else out_
                 name = rng.choice([
+                    fill(room), fill(room) + list(origin),                 # exactly 255 octets with the origin: legal
+                    fill(room + 1),                                        # one more: KeyError (too long once derelativized)
+                    fill(room - 1), [b"l" * 63] + list(rn)[:1],
                     [b"a", b"other", b""], [b"a", b""], [b"x" * 63] * 3 + [b"y" * 50], [b"x" * 63, b"y" * 63, b"z" * 63, b"w" * 60],
                     [b"A"] + list(rn), list(rn) + [l.upper() for l in origin], [b"\x00"], [b"\xff", b"a"], [b"a" * 63]])
                 k = None
@@ -1122,6 +1173,9 @@ def gen_loads(rng):
                               "load": {"origin_from_text": origin_from_text}})
                 if rng.chance(1, 6):
                     cases[-1]["cls"] = "CH"
+                if not origin_from_text and rng.chance(1, 3):
+                    # the same records once more, arriving as a zone transfer
+                    cases.append(dict(cases[-1], load={"origin_from_text": False, "xfr": True}))
     return cases
 
 
@@ -1214,8 +1268,8 @@ def generate(ctx: Ctx, scale: int, rng):
             run_case(ctx, gen_bigindex(rng, ncuts, commit), "big-index." + ("commit" if commit else "abort"))
     for _ in range(n(8)):
         for c in gen_loads(rng):
-            run_case(ctx, c, "load-text." + ("$ORIGIN" if c["load"]["origin_from_text"] else "origin")
-                     + (".rel" if c["rel"] else ".abs"))
+            run_case(ctx, c, ("load-xfr." if c["load"].get("xfr") else "load-text.")
+                     + ("$ORIGIN" if c["load"]["origin_from_text"] else "origin") + (".rel" if c["rel"] else ".abs"))
 
 
 def run(ctx: Ctx):
